@@ -3,6 +3,9 @@ import ScryerModel.Model.Json
 /- drv_C41 (model side of the C41 correspondence).
    `parse <id> <code points, space separated>`  →  `ok <value tokens>` | `none` | `skip-bigexp`
    `gen   <id> <value tokens>`                  →  `ok <code points>` | `bad-value`
+   `flt   <id> <code points of ONE number token>` →  `int` (integer token) | `bad` |
+       `P <m> <e> N <m> <e>`: magnitude m·2^e of today's assembled float (`pinnedMag`) and of the
+       nearest double of the exact decimal (`nearestMag`); `inf` instead of `<m> <e>` = overflow
    value tokens (prefix, space separated): `N` null, `T`/`F`, `I<int>`, `D<0|1>,<m>,<e>`,
    `S<cp>.<cp>…` string, `A<n>` then n values, `O<n>` then n × (`S…` key, value). -/
 open Scryer.Drv Scryer.Json
@@ -117,6 +120,22 @@ def genLine (arg : String) : String :=
   | some (v, []) => "ok " ++ showCps (gen v)
   | _ => "bad-value"
 
+def showDbl : Option Dbl → String
+  | some d => s!"{d.m} {d.e}"
+  | none => "inf"
+
+def fltLine (arg : String) : String :=
+  let s := cpsOf arg
+  if maxExpDigits s > 4 then "skip-bigexp"
+  else
+    match numParts s with
+    | some ((_, ids, frac, ex), []) =>
+      if frac.isNone && decide (0 ≤ ex) then "int"
+      else
+        let d := tokenDec ids frac ex
+        "P " ++ showDbl (pinnedMag ids frac ex) ++ " N " ++ showDbl (nearestMag d.1 d.2)
+    | _ => "bad"
+
 end Scryer.JsonDrv
 
 open Scryer.JsonDrv in
@@ -124,4 +143,5 @@ def main : IO Unit := runDriver fun
   | "parse" :: _ :: arg :: _ => parseLine arg
   | "parse" :: _ :: [] => parseLine ""
   | "gen" :: _ :: arg :: _ => genLine arg
+  | "flt" :: _ :: arg :: _ => fltLine arg
   | _ => "bad-op"
